@@ -43,6 +43,10 @@ type RuntimeOpts struct {
 	// FlattenHome (GenMultiServiceFile): the `home` child of some request bodies of the extra services is
 	// flattened (`home_` prefix): their generated MarshalJSON runs on every JSON call.
 	FlattenHome bool
+	// ReorderPathFields: with two or more path variables the bound fields are sometimes DECLARED in the reverse of
+	// the order in which the path names them (`message R { string post_id = 1; string user_id = 2; }` for
+	// `/users/{user_id}/posts/{post_id}`).
+	ReorderPathFields bool
 }
 
 var urlFieldNames = []string{"user_id", "org", "page", "q", "name", "ratio", "flag", "item_id", "limit", "cursor", "since", "tenant_name"}
@@ -132,6 +136,11 @@ func GenRuntimeFile(r *R, idx int, o RuntimeOpts) *ir.Request {
 			path += "/{" + fn + "}"
 			if r.Bool() {
 				path += fmt.Sprintf("/s%d", v)
+			}
+		}
+		if o.ReorderPathFields && nvars >= 2 && r.Bool() {
+			for a, b := 0, len(in.Fields)-1; a < b; a, b = a+1, b-1 {
+				in.Fields[a], in.Fields[b] = in.Fields[b], in.Fields[a]
 			}
 		}
 		if o.TrailingSlash && r.P(1, 3) {
